@@ -27,11 +27,12 @@ type Bounds struct {
 	MaxC, MaxK, MaxOps, MaxOut, MaxG, MaxM, MaxSteps int
 	HugeOneIn                                        int // one run in so many uses a huge shape (64 Ki .. 1 Mi samples)
 	MarathonOneIn                                    int // one C10 run in so many is a marathon (about 1e5 operations on a tiny shape)
+	LongOneIn                                        int // one C11 run in so many is long (hundreds of cycles per task, many tasks)
 }
 
 var tiers = map[string]Bounds{
-	"quick":    {MaxC: 16, MaxK: 64, MaxOps: 300, MaxOut: 6, MaxG: 8, MaxM: 6, MaxSteps: 6000, HugeOneIn: 2500, MarathonOneIn: 12000},
-	"thorough": {MaxC: 64, MaxK: 4096, MaxOps: 400, MaxOut: 16, MaxG: 64, MaxM: 10, MaxSteps: 50000, HugeOneIn: 400, MarathonOneIn: 1500},
+	"quick":    {MaxC: 16, MaxK: 64, MaxOps: 300, MaxOut: 6, MaxG: 8, MaxM: 6, MaxSteps: 6000, HugeOneIn: 2500, MarathonOneIn: 12000, LongOneIn: 1500},
+	"thorough": {MaxC: 64, MaxK: 4096, MaxOps: 400, MaxOut: 16, MaxG: 64, MaxM: 10, MaxSteps: 50000, HugeOneIn: 400, MarathonOneIn: 1500, LongOneIn: 300},
 }
 
 // runCtx is everything one run needs.
@@ -99,6 +100,7 @@ func main() {
 	replay := flag.String("replay", "", "replay file (JSON with a tape); executes exactly that run")
 	trace := flag.Bool("trace", false, "record and print a human-readable trace")
 	sample := flag.Int("sample", 0, "emit the trace of the first N runs")
+	stopAt := flag.Int64("stopat", 0, "unix time after which no further run is started (the driver's wall-clock budget)")
 	traceRun := flag.Int64("tracerun", -1, "record the trace of this run index")
 	child := flag.Bool("child", false, "internal: one isolated run on behalf of a parent worker")
 	isolateAll := flag.Bool("isolate", false, "run every run in a process of its own (at most 64 runs of the range): used when goroutines or state the library keeps at package level make runs in one process depend on each other")
@@ -261,6 +263,9 @@ func main() {
 		for run := *from; run < *to; run++ {
 			if isolate && nruns >= 64 {
 				break
+			}
+			if *stopAt > 0 && nruns > 0 && time.Now().Unix() >= *stopAt {
+				break // out of budget: the summary says how many runs were executed
 			}
 			tracing := *trace || int(run-*from) < *sample || int64(run) == *traceRun
 			if isolate {
